@@ -108,7 +108,8 @@ pub fn Suspense(props: SuspenseProps) -> View {
                     create_effect(move || {
                         if suspense_scope.parent.as_ref().map_or(true, |parent| parent.get().sent.get()) {
                             if let Some(tx) = tx.take() {
-                                tx.send(()).unwrap();
+                                // The fragment future may have been dropped in the meantime.
+                                let _ = tx.send(());
                             }
                         }
                     });
